@@ -207,6 +207,20 @@ func boundaryCases() []GCase {
 		h := []GBlock{{100, 10}, {99, 3}}
 		return obsWith(nil, []GProp{{Kind: 1, Upk: 95, Log: 45 + i, Blk: 100, Hash: 777 + i, ExtBlk: 5}, {Kind: 0, Upk: 96 + i, Blk: 100, Hash: 10}, {Kind: 0, Upk: 90 + i, Blk: 99, Hash: 3}}, h)
 	})})
+	// one oracle lists a block twice, not adjacently: the observation is invalid as a whole and must not
+	// give that block two votes
+	add(GCase{Family: "duplicate-block-number-non-adjacent", N: 4, F: 1, Seq: 77, Digest: 1, Obs: nObs(4, func(i int) GObs {
+		if i == 3 {
+			return obsWith(nil, []GProp{prop(9)}, []GBlock{{99, 50}, {98, 3}, {99, 50}})
+		}
+		return obsWith(nil, []GProp{prop(i)}, []GBlock{{98, 3}, {97, 4}})
+	})})
+	add(GCase{Family: "duplicate-block-number-adjacent", N: 4, F: 1, Seq: 78, Digest: 1, Obs: nObs(4, func(i int) GObs {
+		if i == 3 {
+			return obsWith(nil, []GProp{prop(9)}, []GBlock{{99, 50}, {99, 50}, {98, 3}})
+		}
+		return obsWith(nil, []GProp{prop(i)}, []GBlock{{98, 3}, {97, 4}})
+	})})
 	add(GCase{Family: "block-quorum-exactly-f+1", N: 7, F: 2, Seq: 71, Digest: 1, Obs: nObs(7, func(i int) GObs {
 		h := []GBlock{{Num: uint64(100 + i), Hash: 20 + i}, {99, 3}}
 		if i >= 3 {
@@ -433,6 +447,14 @@ func randomCase(r *Rng) GCase {
 		o.Hist = append([]GBlock(nil), h[lo:]...)
 		if r.Chance(1, 15) {
 			o.Hist = nil
+		}
+		if byz[i] && len(o.Hist) > 1 && r.Chance(1, 3) {
+			// Byzantine: repeat a block (first entry again at the end, or right after itself)
+			if r.Bool() {
+				o.Hist = append(o.Hist, o.Hist[0])
+			} else {
+				o.Hist = append([]GBlock{o.Hist[0]}, o.Hist...)
+			}
 		}
 		c.Obs = append(c.Obs, o)
 	}
